@@ -1,6 +1,6 @@
 (* C17 - property theorems only. Statements are about the Mech model of preprocessor.cpp
    (Model.v); the proofs are in Spec.v / Expand.v. *)
-From Coq Require Import List Arith Bool Ascii String.
+From Coq Require Import List Arith Bool Ascii String NArith.
 Local Open Scope string_scope.
 Local Open Scope list_scope.
 From Cb Require Import C17.Model C17.Spec C17.Expand C17.Complete C17.Classify.
@@ -87,27 +87,31 @@ Theorem replacement_is_whole_word_outside_recorded_strings : forall fuel name s 
 Proof. exact search_sound. Qed.
 Print Assumptions replacement_is_whole_word_outside_recorded_strings.
 
-Theorem line_without_macro_names_untouched : forall t s, absent t s -> expand t s = s.
+Theorem line_without_macro_names_untouched : forall t s, absent t s -> expand t s = (s, false).
 Proof. exact expand_absent_id. Qed.
 Print Assumptions line_without_macro_names_untouched.
 
 (* the repaired loop (fix: commits for C17-stale-string-ranges and C17-cap-100): each step of the sweep
    over one macro replaces the first remaining whole-word occurrence outside the string literals of the
    CURRENT text, and goes on with the rest of the line *)
-Theorem sweep_replaces_outside_current_strings : forall f name body s pos ch,
-  sweep (S f) name body s pos ch =
+Theorem sweep_replaces_outside_current_strings : forall f limit name body s pos ch,
+  sweep (S f) limit name body s pos ch =
   match search (S (List.length s)) name s (string_ranges s) pos with
-  | None => (s, ch)
-  | Some p => sweep f name body (replace_at s p (List.length name) body) (p + List.length body) true
+  | None => SGo s ch
+  | Some p => let s' := replace_at s p (List.length name) body in
+              if too_large limit s' then SOver s'
+              else sweep f limit name body s' (p + List.length body) true
   end.
 Proof. exact sweep_unfold. Qed.
 Print Assumptions sweep_replaces_outside_current_strings.
 
-(* the two former counter-examples now behave as the property demands *)
+(* the two former counter-examples now behave as the property demands, and a self-referential macro
+   ends in a reported error instead of exponential growth *)
 Theorem former_witnesses_repaired :
-  expand (define (define [] (s2l "A") (s2l "xxxxxxxx")) (s2l "B") (s2l "1")) (s2l "A ""B""") = s2l "xxxxxxxx ""B""" /\
-  expand (define [] (s2l "N") (s2l "1")) (List.concat (List.repeat (s2l "N ") 101)) = List.concat (List.repeat (s2l "1 ") 101).
-Proof. vm_compute. split; reflexivity. Qed.
+  expand (define (define [] (s2l "A") (s2l "xxxxxxxx")) (s2l "B") (s2l "1")) (s2l "A ""B""") = (s2l "xxxxxxxx ""B""", false) /\
+  expand (define [] (s2l "N") (s2l "1")) (List.concat (List.repeat (s2l "N ") 101)) = (List.concat (List.repeat (s2l "1 ") 101), false) /\
+  snd (passes max_iterations 40 (define [] (s2l "A") (s2l "A A")) (s2l "x A y")) = true.
+Proof. vm_compute. repeat split; reflexivity. Qed.
 Print Assumptions former_witnesses_repaired.
 
 (* non-vacuity: a concrete three-level file meets the hypotheses and selects what one expects *)
